@@ -99,6 +99,23 @@ Check afc_open_authentic :
          /\ vis data' = pt /\ kind data' = kind data).
 Print Assumptions afc_open_authentic.
 
+(** Foreign ciphertexts: what another channel end sealed opens only under the
+    same key, nonce and label. *)
+Theorem afc_foreign_rejected : afc_foreign_rejected_stmt.
+Proof. exact afc_foreign_rejected_proof. Qed.
+Check afc_foreign_rejected :
+  forall K TAG aead_seal aead_open garbage, aead_ideal K TAG aead_seal aead_open garbage ->
+  (forall k n ad pt k' n' ad' pt' c,
+     aead_seal k n ad pt = Some c -> aead_seal k' n' ad' pt' = Some c -> k = k' /\ n = n' /\ ad = ad' /\ pt = pt') ->
+  forall m m' (cs co : chan K) dst pt h dst' cs' dst2 lbl seq out,
+    seal K TAG aead_seal m cs dst pt = (Ok h, dst', cs') ->
+    bytes_ok dst' ->
+    open K TAG aead_open m' co dst2 (firstn (N.to_nat (len pt + OVERHEAD TAG)) dst') = (Ok (lbl, seq), out) ->
+    c_key K co = c_key K cs /\ c_label K co = c_label K cs /\ seq = c_seq K cs /\ lbl = c_label K cs
+    /\ compute_nonce (c_nonce K co) seq = compute_nonce (c_nonce K cs) (c_seq K cs)
+    /\ out = pt ++ skipn (length pt) dst2.
+Print Assumptions afc_foreign_rejected.
+
 (** On error the destination is untouched or all zeros. *)
 Theorem afc_open_err_clean : afc_open_err_clean_stmt.
 Proof. exact afc_open_err_clean_proof. Qed.
